@@ -10,6 +10,22 @@ sys.path.insert(0, os.path.dirname(os.path.abspath(__file__)))
 import common
 
 
+def after_error(prop, msg):
+    """A machinery error (vacuity guard, parse failure, harness exception) AFTER the check had already recorded
+    violations of the tree under test is a consequence of that tree (a run cut short, a crash on broken output):
+    the recorded violations are the verdict (exit 1).  With no violation recorded it is a machinery failure (exit 2)."""
+    traceback.print_exc()
+    pending = [c for c in common.ACTIVE_CHECKS if c.violations and not c.finished and c.prop == prop.upper()]
+    if pending:
+        chk = pending[-1]
+        chk.notes["machinery_error_after_violations"] = msg[:2000]
+        chk.exhaustive = False
+        print("note: %s (after %d recorded violation(s); the violations are the verdict)" % (msg[:300], len(chk.violations)))
+        return chk.finish()
+    print("MACHINERY-ERROR property=%s %s" % (prop, msg))
+    return 2
+
+
 def main():
     ap = argparse.ArgumentParser()
     ap.add_argument("prop")
@@ -21,13 +37,9 @@ def main():
         mod = importlib.import_module("props." + a.prop.lower())
         rc = mod.run(a.tier, a.replay)
     except common.MachineryError as e:
-        print("MACHINERY-ERROR property=%s %s" % (a.prop, e))
-        traceback.print_exc()
-        rc = 2
+        rc = after_error(a.prop, "%s" % (e,))
     except Exception as e:
-        print("MACHINERY-ERROR property=%s unexpected %r" % (a.prop, e))
-        traceback.print_exc()
-        rc = 2
+        rc = after_error(a.prop, "unexpected %r" % (e,))
     sys.stdout.flush()
     sys.exit(rc)
 
